@@ -10,6 +10,7 @@ mod ops_svgw;
 mod ops_pathmut;
 mod ops_quartic;
 mod ops_assign;
+mod ops_ellperim;
 
 pub struct Rd<'a> {
     pub t: Vec<&'a str>,
@@ -214,7 +215,10 @@ fn run_line(line: &str) -> String {
                 None => match ops_svgw::run(op, &mut rd) {
                     None => match ops_pathmut::run(op, &mut rd) {
                         None => match ops_quartic::run(op, &mut rd) {
-                            None => ops_assign::run(op, &mut rd),
+                            None => match ops_assign::run(op, &mut rd) {
+                                None => ops_ellperim::run(op, &mut rd),
+                                x => x,
+                            },
                             x => x,
                         },
                         x => x,
